@@ -127,6 +127,14 @@ def templates(horizon=40):
                  tags=("template", "cells")),
             Spec("tpl/soft_2d_cuboid", os.path.join(TEMPLATE_DIR, "soft_2d_cuboid.ini"), horizon=horizon,
                  tags=("template",)),
+            # explicit start: non-overlapping disks (radius 0.11)
+            Spec("tpl/hard_disks_cuboid_cells", os.path.join(TEMPLATE_DIR, "hard_disks_cuboid_cells.ini"), horizon=150,
+                 start=[([0.2, 0.2], None), ([0.8, 0.6], None), ([1.3, 0.25], None)], tags=("template", "cells")),
+            Spec("tpl/hard_disks_cuboid_cells@low", os.path.join(TEMPLATE_DIR, "hard_disks_cuboid_cells.ini"),
+                 horizon=150, start=[([0.05, 0.03], None), ([0.7, 1.1], None), ([1.45, 0.5], None)],
+                 overrides={("InitialChainStartOfRunEventHandler", "initial_direction_of_motion"): 1,
+                            ("SingleIndependentActiveSequentialDirectionEndOfChainEventHandler", "chain_time"): "0.37"},
+                 tags=("template", "cells")),
             Spec("tpl/soft_cuboid_sparse", os.path.join(TEMPLATE_DIR, "soft_cuboid_sparse.ini"), horizon=60,
                  tags=("template", "cells")),
             # every unit in the last cell row of every direction: wraps through the periodic faces come first
